@@ -20,6 +20,7 @@ from fst.fst_trivia import get_trivia_params, leading_trivia, trailing_trivia
 
 PROPERTY = 'C04'
 THOROUGH_SCALE = 2.0
+THOROUGH_STRIDE = 3        # thorough tier = all quick cells + every 3th thorough-only cell (sized to run end-to-end; '--cells' reaches the others)
 
 ALPHA = ' \t#\\x'     # blank, tab, comment start, continuation, code
 
